@@ -45,8 +45,8 @@ def gen_case(rng, tier, i):
             t = rng.choice(times)
         elif kind == "between" and len(times) >= 2:
             k = rng.randrange(len(times) - 1)
-            t = (times[k] + times[k + 1]) / 2 if clock != "int" else None
-            if t is None or t in times:
+            t = (times[k] + times[k + 1]) / 2      # (on the int clock too: a cut between 2 and 3 is 2.5)
+            if t in times or (clock == "int" and abs(t) > 2 ** 52):
                 t = rng.choice(times)
         elif kind == "before_first":
             t = start
@@ -85,7 +85,7 @@ def _lit(clock, t):
     if clock == "duration":
         return [float(t), "s"]
     if clock == "int":
-        return int(t)
+        return int(t) if t == int(t) else float(t)
     return float(t)
 
 
